@@ -131,6 +131,9 @@ func argZoo() []zooItem {
 		{"[]int", []int{1, 2}}, {"[]float64", []float64{1, 2}}, {"[]string", []string{"x", "a"}},
 		{"[]iface-int", []interface{}{1, 2.0}}, {"[]iface-str", []interface{}{"x"}}, {"[]iface-mixed", []interface{}{1, "x"}},
 		{"[]iface-empty", []interface{}{}},
+		// mixed lists with the member of the wrong type first / in the middle (must be an error wherever it stands)
+		{"[]iface-mixed-first", []interface{}{"x", 1, 2}}, {"[]iface-mixed-middle", []interface{}{1, nil, 2}}, {"[]iface-mixed-bool", []interface{}{1, true, 2}},
+		{"[]iface-mixed-str", []interface{}{"x", 1, "a"}},
 		{"col:i", types.ColumnName("i2")}, {"col:f", types.ColumnName("f")}, {"col:b", types.ColumnName("b")},
 		{"col:s", types.ColumnName("s")}, {"col:e", types.ColumnName("e")}, {"col:e3", types.ColumnName("e3")},
 		{"col:unknown", types.ColumnName("zz")}, {"struct", struct{}{}}, {"[]bool", []bool{true}}, {"*string", sptr("x")},
@@ -630,6 +633,25 @@ func miscZoo() []miscItem {
 		})},
 		{"Aggregate(last invalid) on 40000 rows", true, fr(func(q qframe.QFrame) qframe.QFrame {
 			return c10BigFrame().GroupBy(groupby.Columns("k")).Aggregate(qframe.Aggregation{Fn: "sum", Column: "w"}, qframe.Aggregation{Fn: "max", Column: "w", As: "mw"}, qframe.Aggregation{Fn: "avg", Column: "v"})
+		})},
+		{"ReadCSV twice with the SAME option values (undeclared enum value): second call", true, fr(func(q qframe.QFrame) qframe.QFrame {
+			ev := csv.EnumValues(map[string][]string{"e": {"a", "b"}})
+			ty := csv.Types(map[string]string{"e": "enum"})
+			first := qframe.ReadCSV(strings.NewReader("e,i\na,1\nzzz,2\n"), ty, ev)
+			if first.Err == nil {
+				return first
+			}
+			return qframe.ReadCSV(strings.NewReader("e,i\na,1\nzzz,2\n"), ty, ev)
+		})},
+		{"ReadCSV twice with the SAME option values: the enum read second is still strict", true, fr(func(q qframe.QFrame) qframe.QFrame {
+			ev := csv.EnumValues(map[string][]string{"e": {"a", "b"}})
+			ty := csv.Types(map[string]string{"e": "enum"})
+			_ = qframe.ReadCSV(strings.NewReader("e,i\na,1\nb,2\n"), ty, ev)
+			second := qframe.ReadCSV(strings.NewReader("e,i\nb,1\na,2\n"), ty, ev)
+			if second.Err != nil {
+				return qframe.QFrame{} // reading valid data must work: reported as "no error" below
+			}
+			return second.Filter(qframe.Filter{Column: "e", Comparator: "=", Arg: "zzz"})
 		})},
 		{"Val(list holding only an operation)", true, fr(func(q qframe.QFrame) qframe.QFrame {
 			if r := q.Eval("n", qframe.Val([]interface{}{"abs"})); r.Err == nil {
